@@ -25,6 +25,9 @@ pub enum Act {
     ReadExpect(u8),
     /// `clear_write_buffer()`: all pending output is discarded without touching the stream
     Clear,
+    /// a try_read that finds end of input (0), nothing (EAGAIN, 1) or a read error (ECONNRESET, 2): what
+    /// happens on the read half decides nothing about queued output
+    ReadNothing(u8),
 }
 
 fn act_name(a: &Act) -> String {
@@ -33,6 +36,7 @@ fn act_name(a: &Act) -> String {
         Act::WBurst => "w:burst3xEINTR".into(),
         Act::ReadExpect(v) => format!("readexpect{}", v),
         Act::Clear => "clear".into(),
+        Act::ReadNothing(k) => format!("readnothing{}", k),
         Act::W(WriteEv::Accept(k)) => format!("w:accept{}", k),
         Act::W(WriteEv::AcceptAllBut(j)) => format!("w:len-{}", j),
         Act::W(WriteEv::AcceptHalf) => "w:half".into(),
@@ -52,6 +56,9 @@ fn parse_act(s: &str) -> Option<Act> {
     }
     if s == "clear" {
         return Some(Act::Clear);
+    }
+    if let Some(r) = s.strip_prefix("readnothing") {
+        return r.parse().ok().map(Act::ReadNothing);
     }
     if s == "w:burst3xEINTR" {
         return Some(Act::WBurst);
@@ -139,6 +146,29 @@ pub fn exec(ctx: &mut Ctx, acts: &[Act]) -> bool {
                 }
                 if r.script.write_calls() != writes_before {
                     fault = Some(("enqueue-wrote".into(), "enqueue_response touched the stream".into()));
+                    break;
+                }
+            }
+            Act::ReadNothing(k) => {
+                let ev = match k {
+                    0 => ReadEv::Eof(Vec::new()),
+                    1 => ReadEv::WouldBlock,
+                    _ => ReadEv::Err(libc::ECONNRESET),
+                };
+                let so = r.feed(ev);
+                if let RR::Panic(p) = &so.res {
+                    fault = Some(("panic".into(), format!("try_read panicked: {}", p)));
+                    break;
+                }
+                if cur.is_some() || !queue.is_empty() {
+                    ctx.rep.count(match k {
+                        0 => "end_of_input_seen_with_output_pending",
+                        1 => "empty_reads_with_output_pending",
+                        _ => "read_errors_with_output_pending",
+                    });
+                }
+                if r.script.write_calls() != writes_before {
+                    fault = Some(("read-wrote".into(), "try_read wrote to the stream".into()));
                     break;
                 }
             }
@@ -367,7 +397,9 @@ pub fn run(ctx: &mut Ctx) {
         }
     }
     // ---- the same with output the connection enqueues itself (interim responses) in the alphabet
-    const ALPHABET2: [Act; 9] = [
+    const ALPHABET2: [Act; 11] = [
+        Act::ReadNothing(0),
+        Act::ReadNothing(2),
         Act::Clear,
         Act::Enq(1),
         Act::ReadExpect(1),
@@ -378,7 +410,7 @@ pub fn run(ctx: &mut Ctx) {
         Act::W(WriteEv::Interrupted),
         Act::W(WriteEv::WouldBlock),
     ];
-    let depth2: u32 = if quick { 6 } else { 8 };
+    let depth2: u32 = if quick { 6 } else { 7 };
     let base2 = ALPHABET2.len() as u64;
     for idx in 0..base2.pow(depth2) {
         if !ctx.mine(idx) {
@@ -390,7 +422,7 @@ pub fn run(ctx: &mut Ctx) {
             acts.push(ALPHABET2[(x % base2) as usize]);
             x /= base2;
         }
-        if !acts.iter().any(|a| matches!(a, Act::ReadExpect(_) | Act::Clear)) {
+        if !acts.iter().any(|a| matches!(a, Act::ReadExpect(_) | Act::Clear | Act::ReadNothing(_))) {
             continue; // covered by the first pass
         }
         for _ in 0..3 {
@@ -448,6 +480,10 @@ pub fn run(ctx: &mut Ctx) {
                 if rng.chance(1, 30) {
                     acts.push(Act::Clear);
                     outstanding = 0;
+                    continue;
+                }
+                if rng.chance(1, 20) {
+                    acts.push(Act::ReadNothing(rng.below(3) as u8));
                     continue;
                 }
                 let ev = match rng.below(14) {
